@@ -20,16 +20,17 @@ type PanicSlot struct {
 }
 
 type State struct {
-	pc     []*Term
-	heap   map[*Object]Value
-	epoch  int
-	draws  []Draw
-	covers []string
-	panics []*PanicSlot // stack of in-flight panics (innermost last)
-	steps  int
-	prefix []int // pre-assigned vfChoice values (consumed from the front)
-	npre   int
-	depth  int
+	pc       []*Term
+	heap     map[*Object]Value
+	epoch    int
+	draws    []Draw
+	covers   []string
+	panics   []*PanicSlot // stack of in-flight panics (innermost last)
+	steps    int
+	prefix   []int // pre-assigned vfChoice values (consumed from the front)
+	npre     int
+	depth    int
+	observes []Draw
 }
 
 func (e *Exec) newEpoch() int { e.epochs++; return e.epochs }
@@ -42,16 +43,17 @@ func (e *Exec) newState() *State {
 // every heap node becomes copy-on-write for both.
 func (e *Exec) fork(st *State) *State {
 	n := &State{
-		pc:     append([]*Term(nil), st.pc...),
-		heap:   make(map[*Object]Value, len(st.heap)+4),
-		epoch:  e.newEpoch(),
-		draws:  append([]Draw(nil), st.draws...),
-		covers: append([]string(nil), st.covers...),
-		panics: append([]*PanicSlot(nil), st.panics...),
-		steps:  st.steps,
-		prefix: st.prefix,
-		npre:   st.npre,
-		depth:  st.depth,
+		pc:       append([]*Term(nil), st.pc...),
+		heap:     make(map[*Object]Value, len(st.heap)+4),
+		epoch:    e.newEpoch(),
+		draws:    append([]Draw(nil), st.draws...),
+		covers:   append([]string(nil), st.covers...),
+		panics:   append([]*PanicSlot(nil), st.panics...),
+		steps:    st.steps,
+		prefix:   st.prefix,
+		npre:     st.npre,
+		depth:    st.depth,
+		observes: append([]Draw(nil), st.observes...),
 	}
 	for k, v := range st.heap {
 		n.heap[k] = v
@@ -254,6 +256,12 @@ func (e *Exec) storeAt(st *State, node Value, path []PathElem, val Value, g *Ter
 	}
 	if pe.Idx.IsConst() {
 		k := int(pe.Idx.val)
+		if k < 0 || k >= len(a.E) {
+			if g.IsTrue() {
+				panic(fmt.Sprintf("internal: concrete store index %d out of range %d", k, len(a.E)))
+			}
+			return a // guarded store outside the backing array: the guard is unsatisfiable there
+		}
 		a.E[k] = e.storeAt(st, a.E[k], path[1:], val, g)
 		return a
 	}
